@@ -249,6 +249,12 @@ func (x *Exec) callByContract(fr *Frame, st *State, ci ssa.CallInstruction, fc *
 			x.assume(st, goal)
 		}
 	}
+	// scope of the contract, evaluated in the pre-state
+	scope := "true"
+	for _, sc := range fc.Scope {
+		scope = and(scope, x.evalBool(env, sc.Expr))
+	}
+	scope = x.vc.define("scope", "Bool", scope)
 	// frame
 	if !fc.Pure {
 		if fc.HasMod {
@@ -292,7 +298,7 @@ func (x *Exec) callByContract(fr *Frame, st *State, ci ssa.CallInstruction, fc *
 			x.vc.note(fmt.Sprintf("ensures %s of %s is not usable at call sites (%s)", e.Label, shortKey(fc.Key), errs[0]))
 			continue
 		}
-		x.assume(st, phi)
+		x.assume(st, implies(scope, phi))
 	}
 	for _, ef := range fc.Effects {
 		v := x.evalSpec(env, ef.Expr)
